@@ -69,6 +69,10 @@ def run_controls():
     strip_misuse(ctx, o)
     expect('strip-prefix', o, 'API', 'segment.lstrip(prefix)')
     expect('strip-charset', o, 'API', "line.strip(' \\n')", want=False)
+    from .props.c03 import putmask_values
+    o = Obligations('CTL')
+    putmask_values(ctx, o, prefix='ctl2.')
+    expect('putmask', o, 'API', 'np.putmask(out')
     for extra in _extra_controls:
         extra(ctx, expect)
     return n, bad
